@@ -139,7 +139,8 @@ func canonicalDerived(src string, prefixOf func(plugin string) string) (string, 
 
 func c12Case(ctx *genCtx, ts *tape.Set, dir string) *genResult {
 	prof := drawProfile(ts.Fork("profile"), ctx.tier)
-	prof.UserFuncs = false
+	// hand-written functions with derive-like names stay in (renamed to the prefixes in force for the
+	// prefixed run): the names goderive invents must avoid them under every prefix map
 	prof.Q = false
 	w := world.Generate(ts.Fork("world"), prof)
 	res := &genResult{Sample: map[string]any{}}
@@ -190,6 +191,15 @@ func c12Case(ctx *genCtx, ts *tape.Set, dir string) *genResult {
 		}
 		if rA.Exit != 0 {
 			continue
+		}
+		if k == 0 {
+			if errsA := typecheck(dirA, "./p"); len(errsA) == 0 {
+				if errsB := typecheck(dirB, "./p"); len(errsB) > 0 {
+					facts["typeerrors"] = strings.Join(errsB, "\n")
+					res.V = &genViolation{Clause: "prefixed-run-not-typecheck", Detail: fmt.Sprintf("flags %v (%s): the default run gives a package that type-checks, the prefixed run does not: %s", flags, desc, strings.Join(errsB, " | ")), Facts: facts}
+					return res
+				}
+			}
 		}
 		if w.Prefix == nil {
 			// global prefix (or none): textually identical after mapping the prefixes back
